@@ -5,6 +5,8 @@ pub mod common;
 pub mod c03;
 pub mod c04;
 pub mod c06;
+pub mod c11;
+pub mod c11d;
 
 thread_local! {
     static EXPECT_PANIC: Cell<bool> = const { Cell::new(false) };
@@ -35,6 +37,7 @@ pub fn run(id: &str, tier: Tier) -> i32 {
         "C03" => c03::run(tier),
         "C04" => c04::run(tier),
         "C06" => c06::run(tier),
+        "C11" => c11::run(tier),
         _ => {
             eprintln!("MACHINERY: no check for {id}");
             2
@@ -49,6 +52,7 @@ pub fn replay(id: &str, file: &serde_json::Value) -> i32 {
         "C03" => c03::replay,
         "C04" => c04::replay,
         "C06" => c06::replay,
+        "C11" => c11::replay,
         _ => {
             eprintln!("MACHINERY: no replay for {id}");
             return 2;
